@@ -186,11 +186,28 @@ func (b *Body) processBlock(blk *ssa.BasicBlock, reach0 *T, st0 State) {
 			if lp.IdxPhi != nil {
 				iv := b.vals[lp.IdxPhi]
 				ft.fact(Imp(reach, A(">=", iv.T, Int(-1))))
+				// idx < len: the header compares idx+1 with a len() taken before the loop
+				for _, in := range blk.Instrs {
+					cmp, ok := in.(*ssa.BinOp)
+					if !ok || cmp.Op != token.LSS {
+						continue
+					}
+					inc, ok := cmp.X.(*ssa.BinOp)
+					if !ok || inc.Op != token.ADD || inc.X != ssa.Value(lp.IdxPhi) {
+						continue
+					}
+					if call, ok := cmp.Y.(*ssa.Call); ok {
+						if bi, ok := call.Call.Value.(*ssa.Builtin); ok && bi.Name() == "len" && !lp.Blocks[call.Block()] {
+							ft.fact(Imp(reach, A("<", iv.T, b.val(cmp.Y).T)))
+						}
+					}
+				}
 			}
 			b.assumeInvariants(lp, reach, st)
 		}
 	}
 	b.reach[blk] = reach
+	b.curBlock = blk
 	for _, in := range blk.Instrs {
 		if _, ok := in.(*ssa.Phi); ok {
 			continue
@@ -340,6 +357,7 @@ func (b *Body) invariantsOf(lp *Loop) []*Clause {
 
 func (b *Body) loopEnv(lp *Loop, st State, phiVal func(*ssa.Phi) *Val) *CEnv {
 	env := b.ft.fnEnv(b, st)
+	env.at = lp.Header
 	for _, in := range lp.Header.Instrs {
 		p, ok := in.(*ssa.Phi)
 		if !ok {
@@ -393,18 +411,25 @@ func (b *Body) loopInvariants(lp *Loop, kind string, guard *T, st State, phiVal 
 	env := b.loopEnv(lp, st, phiVal)
 	for _, c := range invs {
 		ft.invHit[c] = true
-		cv, err := env.EvalBool(c.Expr)
-		if err != nil {
-			ft.shapeFail(c, err)
-			continue
-		}
 		name := fmt.Sprintf("%s:loop %s", kind, c.Loop)
 		if c.Name != "" {
 			name += "@" + c.Name
 		} else {
 			name += fmt.Sprintf("#%d", ft.count(kind+c.Loop+c.Src))
 		}
-		ft.oblige(&Obligation{Name: name, Kind: kind, Tags: ft.clauseTags(c), Guard: guard, Goal: cv, Src: c.Src, Pos: ft.pos(lp.Header.Instrs[0].Pos())})
+		parts := splitConj(c.Expr)
+		for k, pe := range parts {
+			cv, err := env.EvalBool(pe)
+			if err != nil {
+				ft.shapeFail(c, err)
+				continue
+			}
+			pn := name
+			if len(parts) > 1 {
+				pn = fmt.Sprintf("%s.%d", name, k+1)
+			}
+			ft.oblige(&Obligation{Name: pn, Kind: kind, Tags: ft.clauseTags(c), Guard: guard, Goal: cv, Src: c.Src, Pos: ft.pos(lp.Header.Instrs[0].Pos())})
+		}
 	}
 }
 
